@@ -69,6 +69,7 @@ def floors(tier):
         "decided:sleeps": 3000 * k,
         "decided:clock_monotone_events": 100000 * k,
         "runs:clock_sum_checked": 400 * k,
+        "decided:outside_time_charges_nonzero": 50000 * k,
         "runs:max_resource_attr": 100 * k,
         "runs:per_trial_seed": 100 * k,
     }
@@ -337,6 +338,19 @@ def run_case(spec):
         final = tk._current_time
         if not close(total, final):
             o.violate("waiting_charged_once", "final_clock_differs_from_sum_of_advances", {"sum": total, "final": final})
+    # ---- time spent outside the backend (scripted wall clock) is charged exactly once
+    dbl = 0
+    for v, since in tk.charges:
+        o.count("decided:outside_time_charges")
+        if v > 0:
+            o.count("decided:outside_time_charges_nonzero")
+        if v > since + 1e-9:
+            o.violate("waiting_charged_once", "outside_time_charged_more_than_once", {"charged": v, "passed_since_last_charge": since})
+            break
+        if v < since - 1e-9:
+            dbl += 1
+    if dbl:
+        o.count("outside_time_dropped", dbl)
     o.set_sig(sig, nontrivial=n_checked >= 3 and multi)
     o.sample = {"kind": spec["kind"], "n_workers": p["n_workers"], "delays": p["delays"], "tuner_sleep": p["tuner_sleep"],
                 "outside": p["outside"], "checkpointing": ckpt, "use_mra": bool(mra), "elapsed": p.get("elapsed"),
